@@ -13,7 +13,7 @@ import json, os, re
 import vlib
 
 ACTIONS = ["Snapshot", "QueryStart", "QueryStep", "QueryFinish", "Drop",
-           "ApplyCall", "ApplyBegin", "ApplyAcquire", "ApplySet", "ApplyEnd"]
+           "ApplyCallWith", "ApplyBegin", "ApplyAcquire", "ApplySet", "ApplyEnd"]
 DEADLINE_MS = 30000
 
 
@@ -26,9 +26,16 @@ def _liveness_violated(r):
 
 def model_check(out, tier):
     cfgs = ["Host.cfg", "Host_nosyn.cfg"] + (["Host_3.cfg", "Host_f3.cfg"] if tier == "thorough" else [])
+    neg = ["Host_torn.cfg", "Host_nocancel.cfg", "Host_firstwins.cfg"]
+    jobs = [dict(module="Host", cfg=cfg, workers=4 if tier == "quick" else 8, timeout=5400,
+                 coverage=cfg in ("Host.cfg", "Host_nosyn.cfg"), extra=["-lncheck", "final"], heap="8g",
+                 name="Host-" + cfg[:-4]) for cfg in cfgs]
+    jobs += [dict(module="Host", cfg=cfg, workers=2, timeout=900, extra=["-lncheck", "final"], name="Host-" + cfg[:-4])
+             for cfg in neg]
+    res = dict(zip(cfgs + neg, vlib.tlc_many(jobs, max_parallel=5 if tier == "quick" else 3)))
     for cfg in cfgs:
+        r = res[cfg]
         cov = cfg in ("Host.cfg", "Host_nosyn.cfg")
-        r = vlib.tlc("Host", cfg, workers=8, timeout=2400, coverage=cov, extra=["-lncheck", "final"], heap="8g")
         vlib.require_ok(r, "Host " + cfg)
         out.add_tlc(r, "MC Host %s (safety + liveness, exhaustive)" % cfg)
         for a in ACTIONS if cov else []:
@@ -37,13 +44,18 @@ def model_check(out, tier):
         if "Checking temporal properties" not in r.out and "temporal properties" not in r.out:
             raise vlib.ToolError(f"Host/{cfg}: liveness was not checked")
     # the properties must have teeth: one switch off => TLC refutes
-    r = vlib.tlc("Host", "Host_torn.cfg", workers=4, timeout=600)
+    r = res["Host_torn.cfg"]
     if not (r.violated and re.search(r"Invariant (Frozen|Isolation|NoTornRead) is violated", r.out)):
         raise vlib.ToolError("Host_torn: a snapshot during apply_change was expected to violate an invariant (vacuity check)")
-    r = vlib.tlc("Host", "Host_nocancel.cfg", workers=4, timeout=600, extra=["-lncheck", "final"])
+    r = res["Host_nocancel.cfg"]
     if not _liveness_violated(r) or r.violated:
         raise vlib.ToolError("Host_nocancel: without cancellation Prompt was expected to be violated (vacuity check)")
-    out.cov["negative_models_refuted"] = ["Host_torn.cfg (Frozen)", "Host_nocancel.cfg (Prompt)"]
+    r = res["Host_firstwins.cfg"]
+    if not (r.violated and re.search(r"Invariant NoIntermediate is violated|Action property ApplyEffect is violated", r.out)):
+        raise vlib.ToolError("Host_firstwins: a Change::apply that keeps the first content queued for a file was expected to "
+                             "violate NoIntermediate / ApplyEffect (vacuity check)")
+    out.cov["negative_models_refuted"] = ["Host_torn.cfg (Frozen)", "Host_nocancel.cfg (Prompt)",
+                                          "Host_firstwins.cfg (NoIntermediate)"]
 
 
 # --------------------------------------------------------------------------------------
@@ -118,10 +130,13 @@ def classify(run_lines, k):
             if exp != e["h"]:
                 f["what"] = "wrong answer for snapshot revision"
                 same = [i for i, row in enumerate(refs) if row[q - 1] == e["h"]]
+                first = [i for i, row in enumerate(head.get("refs_first_content_wins") or []) if row and row[q - 1] == e["h"]]
                 f["answer_is_of"] = ("a later version" if any(i > v for i in same) else
-                                     "an earlier version" if same else "no version (mixture)")
+                                     "an earlier version" if same else
+                                     "an intermediate content of a change (the first text queued for a file, not the last)"
+                                     if first else "no version (mixture)")
                 d.update({"expected_hash": exp, "got_hash": e["h"], "versions_with_that_answer": same,
-                          "during_apply": in_apply})
+                          "during_apply": in_apply, "writes_of_the_changes": head.get("changes")})
             else:
                 f["what"] = "ok answer where Host requires Cancelled or no answer"
                 d["flag_known_raised"] = flag_seen
@@ -285,24 +300,72 @@ def race_and_validate(out, seed, hr_args, name, timeout, selftest=False):
     return summary, accepted
 
 
+def repo_tree():
+    """The checkout under test = where harness/Cargo.toml takes the ide crate from (/repo, or a worktree under with_repo)."""
+    m = re.search(r'^ide\s*=\s*\{\s*path\s*=\s*"([^"]+)/crates/ide"', open(os.path.join(vlib.HARNESS, "Cargo.toml")).read(), re.M)
+    if not m:
+        raise vlib.ToolError("harness/Cargo.toml: no path dependency on the ide crate")
+    return m.group(1)
+
+
+def public_query_api(tree):
+    """The `pub fn`s of `impl Analysis` in crates/ide/src/ide/mod.rs: the complete query API a snapshot offers."""
+    src = open(os.path.join(tree, "crates/ide/src/ide/mod.rs")).read()
+    m = re.search(r"\nimpl Analysis \{\n(.*?)\n\}\n", src, re.S)
+    names = sorted(set(re.findall(r"^    pub fn (\w+)\s*[(<]", m.group(1), re.M))) if m else []
+    if len(names) < 5:
+        raise vlib.ToolError("could not read the public methods of ide::Analysis from " + tree)
+    return names
+
+
+def coverage_requirements(summary, nruns, api):
+    """Vacuity: the race must have exercised what the claim says (tool error otherwise)."""
+    missing = sorted(set(api) - set(summary["api"]))
+    if missing:
+        raise vlib.ToolError("public query methods of ide::Analysis that the race never calls: " + ", ".join(missing)
+                             + " (extend KINDS / API / render_query in harness/src/bin/hostrace.rs)")
+    called = {c["method"] for c in summary["by_kind"].values()}
+    if set(summary["api"]) - called:
+        raise vlib.ToolError("hostrace: API names without a query kind: " + ", ".join(sorted(set(summary["api"]) - called)))
+    need = max(3, nruns // 10)
+    for kind, c in sorted(summary["by_kind"].items()):
+        if c["write_known_pending"] < need:
+            raise vlib.ToolError(f"query kind {kind}: only {c['write_known_pending']} calls were started while a write was known to "
+                                 f"be pending (need {need}): its cancellation wrapper is not exercised")
+        if c["issued"] - c["cancelled"] < need:
+            raise vlib.ToolError(f"query kind {kind}: only {c['issued'] - c['cancelled']} calls came back with an answer (need {need})")
+    if summary["changes_with_two_contents_for_a_file"] < nruns // 4 or summary["changes_with_roots_and_graph"] < nruns // 10:
+        raise vlib.ToolError("too few changes with two contents for one file / with roots and package graph")
+    if summary["ok_answers_on_versions_after_such_changes"] < nruns:
+        raise vlib.ToolError("too few answers on snapshots of versions written by a change with two contents for one file")
+    if summary["ambush_timeouts"] > max(2, summary["ambushes"] // 20):
+        raise vlib.ToolError(f"{summary['ambush_timeouts']} ambushes never saw the pending write (of {summary['ambushes']})")
+
+
 def run(out, tier, seed):
+    api = public_query_api(repo_tree())
     model_check(out, tier)
     nruns = 300 if tier == "quick" else 5000
     jobs = max(1, min(6, vlib.NCPU // 2 - 2))
     args = ["--runs", str(nruns), "--jobs", str(jobs)]
-    summary, accepted = race_and_validate(out, seed, args, tier, timeout=600 if tier == "quick" else 3000, selftest=True)
+    summary, accepted = race_and_validate(out, seed, args, tier, timeout=900 if tier == "quick" else 6000, selftest=True)
     if not summary["aborted"] and summary["runs"] != nruns:
         raise vlib.ToolError(f"hostrace executed {summary['runs']} of {nruns} runs")
-    if summary["runs"] and not summary["aborted"]:
+    if summary["runs"] and not summary["aborted"] and not out.violations:
         frac = summary["racing_runs"] / summary["runs"]
         if frac < 0.3:
             raise vlib.ToolError(f"only {frac:.0%} of the runs had a query overlapping an apply_change: the workload does not race")
         if summary["ref_pairs"] and summary["ref_pairs_differing"] / summary["ref_pairs"] < 0.3:
             raise vlib.ToolError("reference answers of consecutive versions hardly differ: a mixture would go unnoticed")
+        coverage_requirements(summary, nruns, api)
     out.cov["exhaustive"] = False
     out.cov["race"] = {k: summary[k] for k in ("runs", "events", "queries", "racing_runs", "cancelled_results", "applies",
                                                "max_apply_ms", "mean_apply_ms", "max_query_ms", "ref_pairs",
-                                               "ref_pairs_differing", "aborted")}
+                                               "ref_pairs_differing", "aborted", "ambushes", "ambush_timeouts",
+                                               "changes_with_two_contents_for_a_file", "changes_with_roots_and_graph",
+                                               "ok_answers_on_versions_after_such_changes")}
+    out.cov["analysis_api"] = api
+    out.cov["query_kinds"] = summary["by_kind"]
     out.cov["rule"] = ("MC: Host.tla exhaustively for 2 readers x 2 changes x 2 files x 2 queries per snapshot (with and without the "
                        "synthetic write; thorough adds 3 readers), invariants + liveness Prompt without state constraint, every "
                        "action covered, two broken variants refuted.  TRACE: %d seeded runs of 1 writer (1-4 changes of 1-3 of 3 "
